@@ -77,15 +77,53 @@ impl ExpiredKey<u8> for Key {
     }
 }
 
+/// map / set key with an observable (and, for C18, panicking) comparison
+#[derive(Clone, Copy, Debug, Default)]
+struct CK(u8);
+impl PartialEq for CK {
+    fn eq(&self, o: &Self) -> bool {
+        self.0 == o.0
+    }
+}
+impl Eq for CK {}
+impl PartialOrd for CK {
+    fn partial_cmp(&self, o: &Self) -> Option<Ordering> {
+        Some(self.cmp(o))
+    }
+}
+impl Ord for CK {
+    fn cmp(&self, o: &Self) -> Ordering {
+        callback_tick();
+        self.0.cmp(&o.0)
+    }
+}
+
 #[derive(Clone, Copy, Debug, Default, PartialEq)]
 struct Item {
-    key: u8,
+    key: CK,
     payload: u8,
 }
-impl KeyValue<u8> for Item {
-    fn key(&self) -> &u8 {
+impl KeyValue<CK> for Item {
+    fn key(&self) -> &CK {
+        callback_tick();
         &self.key
     }
+}
+
+thread_local! {
+    static FUSE_LAST: RefCell<i64> = RefCell::new(-1);
+}
+fn arm_fuse() -> bool {
+    let v = FUSE_LAST.with(|f| *f.borrow());
+    if v >= 0 {
+        FUSE.with(|f| *f.borrow_mut() = v);
+        true
+    } else {
+        false
+    }
+}
+fn disarm_fuse() {
+    FUSE.with(|f| *f.borrow_mut() = -1);
 }
 
 #[derive(Clone, Debug)]
@@ -125,11 +163,15 @@ impl Ref {
 
 struct Out {
     findings: u32,
+    retag: Option<&'static str>,
 }
 impl Out {
     fn mismatch(&mut self, i: usize, tag: &str, detail: String) {
         self.findings += 1;
-        println!("MISMATCH {} {} {}", i, tag, detail);
+        match self.retag {
+            Some(t) => println!("MISMATCH {} {} ({}) {}", i, t, tag, detail),
+            None => println!("MISMATCH {} {} {}", i, tag, detail),
+        }
     }
 }
 
@@ -243,7 +285,7 @@ fn parse(path: &str) -> (String, usize, Vec<(String, HashMap<String, i64>)>) {
             Some("capacity") => cap = it.next().unwrap().parse().unwrap(),
             Some("fuse") => {
                 let v: i64 = it.next().unwrap().parse().unwrap();
-                FUSE.with(|f| *f.borrow_mut() = v);
+                FUSE_LAST.with(|f| *f.borrow_mut() = v);
             }
             Some("op") => {
                 let name = it.next().unwrap().to_string();
@@ -282,6 +324,58 @@ fn run_key(cap: usize, ops: &[(String, HashMap<String, i64>)], out: &mut Out) {
         }
         let tr = tr.unwrap();
         let mut check_cmp = true;
+        if i + 1 == ops.len() && name != "into_ordered_vec" && arm_fuse() {
+            let d = g("d") as u8;
+            let p9 = g("p9") as u16;
+            let r = catch_unwind(AssertUnwindSafe(|| match name.as_str() {
+                "insert" => tr.insert(probe, g("v") as u8, t),
+                "get_value" => {
+                    tr.get_value(t, probe);
+                }
+                "first_less" => {
+                    tr.first_less(t, d, probe);
+                }
+                "first_less_or_equal_by" => {
+                    tr.first_less_or_equal_by(t, d, |key: Key| {
+                        callback_tick();
+                        (2 * key.k as u16).cmp(&p9)
+                    });
+                }
+                _ => {
+                    tr.first_less_or_equal(t, d, probe);
+                }
+            }));
+            disarm_fuse();
+            println!("FUSED panicked={}", r.is_err());
+            out.retag = Some("C18:valid-at-callback");
+            snapshot_key(tr, i, out);
+            out.retag = None;
+            let mut post = rf.e.clone();
+            if name == "insert" {
+                post.push(Entry { k: probe.k, x: probe.x, v: g("v") as u8, present: true });
+            }
+            let rpost = Ref { e: post, timed: true };
+            let mut keys: Vec<u8> = rf.e.iter().map(|e| e.k).collect();
+            keys.push(probe.k);
+            let (mut is_pre, mut is_post) = (true, true);
+            for u in keys {
+                match catch_unwind(AssertUnwindSafe(|| tr.get_value(t, Key { k: u, x: 0 }))) {
+                    Ok(got) => {
+                        if got != rf.lookup(u, Some(t)) {
+                            is_pre = false;
+                        }
+                        if got != rpost.lookup(u, Some(t)) {
+                            is_post = false;
+                        }
+                    }
+                    Err(_) => out.mismatch(i, "C18:valid-at-callback", format!("lookup of {} panics after the caught panic", u)),
+                }
+            }
+            if !is_pre && !is_post {
+                out.mismatch(i, "C18:untorn-at-callback", "live contents are neither those before nor those after the operation".into());
+            }
+            break;
+        }
         match name.as_str() {
             "insert" => {
                 tr.insert(probe, g("v") as u8, t);
@@ -403,26 +497,26 @@ fn snapshot_key(tr: &KeyExpTree<Key, u8, u8>, i: usize, out: &mut Out) {
 fn snapshot_key(_: &KeyExpTree<Key, u8, u8>, _: usize, _: &mut Out) {}
 
 #[cfg(ishape_rust_itree_verif)]
-fn snapshot_map(tr: &MapTree<u8, u8>, i: usize, out: &mut Out) {
+fn snapshot_map(tr: &MapTree<CK, u8>, i: usize, out: &mut Out) {
     let (root, unused, nodes) = tr.verif_snapshot();
-    let nodes: Vec<_> = nodes.iter().map(|n| (n.0, n.1, n.2, n.3, n.4)).collect();
+    let nodes: Vec<_> = nodes.iter().map(|n| (n.0, n.1, n.2, n.3, n.4 .0)).collect();
     for (tag, d) in check_structure(root, &unused, &nodes, true) {
         out.mismatch(i, &tag, d);
     }
 }
 #[cfg(not(ishape_rust_itree_verif))]
-fn snapshot_map(_: &MapTree<u8, u8>, _: usize, _: &mut Out) {}
+fn snapshot_map(_: &MapTree<CK, u8>, _: usize, _: &mut Out) {}
 
 #[cfg(ishape_rust_itree_verif)]
-fn snapshot_set(tr: &SetTree<u8, Item>, i: usize, out: &mut Out) {
+fn snapshot_set(tr: &SetTree<CK, Item>, i: usize, out: &mut Out) {
     let (root, unused, nodes) = tr.verif_snapshot();
-    let nodes: Vec<_> = nodes.iter().map(|n| (n.0, n.1, n.2, n.3, n.4.key)).collect();
+    let nodes: Vec<_> = nodes.iter().map(|n| (n.0, n.1, n.2, n.3, n.4.key.0)).collect();
     for (tag, d) in check_structure(root, &unused, &nodes, true) {
         out.mismatch(i, &tag, d);
     }
 }
 #[cfg(not(ishape_rust_itree_verif))]
-fn snapshot_set(_: &SetTree<u8, Item>, _: usize, _: &mut Out) {}
+fn snapshot_set(_: &SetTree<CK, Item>, _: usize, _: &mut Out) {}
 
 /// common driver for map and set through a tiny adapter
 trait MS {
@@ -442,15 +536,15 @@ trait MS {
     fn pid(&self) -> &'static str;
     fn dump(&self) -> String;
 }
-impl MS for MapTree<u8, u8> {
-    fn insert(&mut self, k: u8, v: u8) { MapCollection::insert(self, k, v) }
-    fn delete(&mut self, k: u8) { MapCollection::delete(self, k) }
+impl MS for MapTree<CK, u8> {
+    fn insert(&mut self, k: u8, v: u8) { MapCollection::insert(self, CK(k), v) }
+    fn delete(&mut self, k: u8) { MapCollection::delete(self, CK(k)) }
     fn delete_by_index(&mut self, h: u32) { MapCollection::delete_by_index(self, h) }
-    fn get(&self, k: u8) -> Option<(u8, u8)> { self.get_value(k).map(|v| (k, *v)) }
+    fn get(&self, k: u8) -> Option<(u8, u8)> { self.get_value(CK(k)).map(|v| (k, *v)) }
     fn at(&self, h: u32) -> (Option<u8>, u8) { (None, *self.value_by_index(h)) }
     fn set_at(&mut self, h: u32, v: u8) { *self.value_by_index_mut(h) = v }
-    fn fil(&self, k: u8) -> u32 { self.first_index_less(k) }
-    fn fil_by(&self, p9: u16) -> u32 { self.first_index_less_by(|k| (2 * k as u16).cmp(&p9)) }
+    fn fil(&self, k: u8) -> u32 { self.first_index_less(CK(k)) }
+    fn fil_by(&self, p9: u16) -> u32 { self.first_index_less_by(|k| { callback_tick(); (2 * k.0 as u16).cmp(&p9) }) }
     fn after(&self, _h: u32) -> u32 { panic!("map has no neighbour steps") }
     fn before(&self, _h: u32) -> u32 { panic!("map has no neighbour steps") }
     fn clear(&mut self) { MapCollection::clear(self) }
@@ -460,21 +554,21 @@ impl MS for MapTree<u8, u8> {
     #[cfg(ishape_rust_itree_verif)]
     fn dump(&self) -> String {
         let (root, unused, nodes) = self.verif_snapshot();
-        let ns: Vec<String> = nodes.iter().map(|n| format!("{}:{}:{}:{}:{}:0:{}", n.0, n.1, n.2, n.3 as u8, n.4, n.5)).collect();
+        let ns: Vec<String> = nodes.iter().map(|n| format!("{}:{}:{}:{}:{}:0:{}", n.0, n.1, n.2, n.3 as u8, n.4 .0, n.5)).collect();
         format!("SNAP root={} unused={:?} nodes={}", root, unused, ns.join(","))
     }
     #[cfg(not(ishape_rust_itree_verif))]
     fn dump(&self) -> String { String::new() }
 }
-impl MS for SetTree<u8, Item> {
-    fn insert(&mut self, k: u8, v: u8) { SetCollection::insert(self, Item { key: k, payload: v }) }
-    fn delete(&mut self, k: u8) { SetCollection::delete(self, &k) }
+impl MS for SetTree<CK, Item> {
+    fn insert(&mut self, k: u8, v: u8) { SetCollection::insert(self, Item { key: CK(k), payload: v }) }
+    fn delete(&mut self, k: u8) { SetCollection::delete(self, &CK(k)) }
     fn delete_by_index(&mut self, h: u32) { SetCollection::delete_by_index(self, h) }
-    fn get(&self, k: u8) -> Option<(u8, u8)> { self.get_value(&k).map(|v| (v.key, v.payload)) }
-    fn at(&self, h: u32) -> (Option<u8>, u8) { let v = self.value_by_index(h); (Some(v.key), v.payload) }
+    fn get(&self, k: u8) -> Option<(u8, u8)> { self.get_value(&CK(k)).map(|v| (v.key.0, v.payload)) }
+    fn at(&self, h: u32) -> (Option<u8>, u8) { let v = self.value_by_index(h); (Some(v.key.0), v.payload) }
     fn set_at(&mut self, h: u32, v: u8) { self.value_by_index_mut(h).payload = v }
-    fn fil(&self, k: u8) -> u32 { self.first_index_less(&k) }
-    fn fil_by(&self, p9: u16) -> u32 { self.first_index_less_by(|k| (2 * *k as u16).cmp(&p9)) }
+    fn fil(&self, k: u8) -> u32 { self.first_index_less(&CK(k)) }
+    fn fil_by(&self, p9: u16) -> u32 { self.first_index_less_by(|k| { callback_tick(); (2 * k.0 as u16).cmp(&p9) }) }
     fn after(&self, h: u32) -> u32 { self.index_after(h) }
     fn before(&self, h: u32) -> u32 { self.index_before(h) }
     fn clear(&mut self) { SetCollection::clear(self) }
@@ -484,7 +578,7 @@ impl MS for SetTree<u8, Item> {
     #[cfg(ishape_rust_itree_verif)]
     fn dump(&self) -> String {
         let (root, unused, nodes) = self.verif_snapshot();
-        let ns: Vec<String> = nodes.iter().map(|n| format!("{}:{}:{}:{}:{}:0:{}", n.0, n.1, n.2, n.3 as u8, n.4.key, n.4.payload)).collect();
+        let ns: Vec<String> = nodes.iter().map(|n| format!("{}:{}:{}:{}:{}:0:{}", n.0, n.1, n.2, n.3 as u8, n.4.key.0, n.4.payload)).collect();
         format!("SNAP root={} unused={:?} nodes={}", root, unused, ns.join(","))
     }
     #[cfg(not(ishape_rust_itree_verif))]
@@ -498,6 +592,66 @@ fn run_ms<T: MS>(tr: &mut T, ops: &[(String, HashMap<String, i64>)], out: &mut O
         begin(i, name);
         let g = |k: &str| *a.get(k).unwrap_or(&0);
         let k = g("k") as u8;
+        if i + 1 == ops.len() && arm_fuse() {
+            // C18: the last operation runs with a callback that panics at its N-th invocation; the panic is caught and the
+            // collection must be structurally valid and hold the contents before or after the operation
+            let p9 = g("p9") as u16;
+            let r = catch_unwind(AssertUnwindSafe(|| match name.as_str() {
+                "insert" => tr.insert(k, g("v") as u8),
+                "delete" => tr.delete(k),
+                "first_index_less_by" => {
+                    tr.fil_by(p9);
+                }
+                "get_value" => {
+                    tr.get(k);
+                }
+                _ => {
+                    tr.fil(k);
+                }
+            }));
+            disarm_fuse();
+            println!("FUSED panicked={}", r.is_err());
+            out.retag = Some("C18:valid-at-callback");
+            tr.snap(i, out);
+            out.retag = None;
+            let mut post = rf.e.clone();
+            match name.as_str() {
+                "insert" => post.push(Entry { k, x: 0, v: g("v") as u8, present: true }),
+                "delete" => {
+                    for e in post.iter_mut() {
+                        if e.k == k {
+                            e.present = false;
+                        }
+                    }
+                }
+                _ => {}
+            }
+            let rpost = Ref { e: post, timed: false };
+            let mut keys: Vec<u8> = rf.e.iter().map(|e| e.k).collect();
+            keys.push(k);
+            let (mut is_pre, mut is_post) = (true, true);
+            for u in keys {
+                let got = catch_unwind(AssertUnwindSafe(|| tr.get(u)));
+                match got {
+                    Ok(got) => {
+                        if got != rf.lookup(u, None).map(|v| (u, v)) {
+                            is_pre = false;
+                        }
+                        if got != rpost.lookup(u, None).map(|v| (u, v)) {
+                            is_post = false;
+                        }
+                    }
+                    Err(_) => {
+                        out.mismatch(i, "C18:valid-at-callback", format!("lookup of {} panics after the caught panic", u));
+                        is_pre = true;
+                    }
+                }
+            }
+            if !is_pre && !is_post {
+                out.mismatch(i, "C18:untorn-at-callback", "contents are neither those before nor those after the operation".into());
+            }
+            break;
+        }
         match name.as_str() {
             "insert" => {
                 tr.insert(k, g("v") as u8);
@@ -799,7 +953,7 @@ fn search(path: &str) {
                 Some((canon(root, &nodes), ti))
             }
             "map" => {
-                let mut t: MapTree<u8, u8> = MapTree::new(0);
+                let mut t: MapTree<CK, u8> = MapTree::new(0);
                 let mut present = vec![false; ents.len()];
                 for op in h {
                     match op {
@@ -807,25 +961,25 @@ fn search(path: &str) {
                             if present[*i] {
                                 return None;
                             }
-                            MapCollection::insert(&mut t, ents[*i].0, ents[*i].0 ^ 0x55);
+                            MapCollection::insert(&mut t, CK(ents[*i].0), ents[*i].0 ^ 0x55);
                             present[*i] = true;
                         }
                         SOp::Del(i) => {
                             if !present[*i] {
                                 return None;
                             }
-                            MapCollection::delete(&mut t, ents[*i].0);
+                            MapCollection::delete(&mut t, CK(ents[*i].0));
                             present[*i] = false;
                         }
                         _ => return None,
                     }
                 }
                 let (root, _, nodes) = t.verif_snapshot();
-                let nodes: Vec<_> = nodes.iter().map(|n| (n.0, n.1, n.2, n.3, n.4, 0u8)).collect();
+                let nodes: Vec<_> = nodes.iter().map(|n| (n.0, n.1, n.2, n.3, n.4 .0, 0u8)).collect();
                 Some((canon(root, &nodes), 0))
             }
             _ => {
-                let mut t: SetTree<u8, Item> = SetTree::new(0);
+                let mut t: SetTree<CK, Item> = SetTree::new(0);
                 let mut present = vec![false; ents.len()];
                 for op in h {
                     match op {
@@ -833,21 +987,21 @@ fn search(path: &str) {
                             if present[*i] {
                                 return None;
                             }
-                            SetCollection::insert(&mut t, Item { key: ents[*i].0, payload: ents[*i].0 ^ 0x55 });
+                            SetCollection::insert(&mut t, Item { key: CK(ents[*i].0), payload: ents[*i].0 ^ 0x55 });
                             present[*i] = true;
                         }
                         SOp::Del(i) => {
                             if !present[*i] {
                                 return None;
                             }
-                            SetCollection::delete(&mut t, &ents[*i].0);
+                            SetCollection::delete(&mut t, &CK(ents[*i].0));
                             present[*i] = false;
                         }
                         _ => return None,
                     }
                 }
                 let (root, _, nodes) = t.verif_snapshot();
-                let nodes: Vec<_> = nodes.iter().map(|n| (n.0, n.1, n.2, n.3, n.4.key, 0u8)).collect();
+                let nodes: Vec<_> = nodes.iter().map(|n| (n.0, n.1, n.2, n.3, n.4.key.0, 0u8)).collect();
                 Some((canon(root, &nodes), 0))
             }
         }
@@ -919,15 +1073,15 @@ fn main() {
         return;
     }
     let (kind, cap, ops) = parse(&args[1]);
-    let mut out = Out { findings: 0 };
+    let mut out = Out { findings: 0, retag: None };
     let r = catch_unwind(AssertUnwindSafe(|| match kind.as_str() {
         "key" => run_key(cap, &ops, &mut out),
         "map" => {
-            let mut t: MapTree<u8, u8> = MapTree::new(cap);
+            let mut t: MapTree<CK, u8> = MapTree::new(cap);
             run_ms(&mut t, &ops, &mut out)
         }
         "set" => {
-            let mut t: SetTree<u8, Item> = SetTree::new(cap);
+            let mut t: SetTree<CK, Item> = SetTree::new(cap);
             run_ms(&mut t, &ops, &mut out)
         }
         "seg" => {
